@@ -121,6 +121,16 @@ def d2(ctx, F):
     ctx.check(good, "C07.D2.reserved-try_from", "try_from:reserved-not-rejected",
               "TopicName::try_from rejects a name whose namespace starts with RESERVED_NAMESPACE (without __notopiccheck)", where)
 
+    # the grammar's length bounds live in the regex literals (checked in D1): the parsers themselves must not add length tests of their
+    # own — a hand-computed maximum is a second, independently wrong, statement of the grammar
+    lens = []
+    for bd in (tf, iv, F.inlined(F.body(TN + "::create"), keep=(TN + "::is_valid",))):
+        for c in bd.calls():
+            if strip_generics(c.callee) in ("core::str::<impl str>::len", "alloc::string::String::len", "core::str::<impl str>::chars", "core::str::<impl str>::bytes",
+                                              "core::str::<impl str>::char_indices"):
+                lens.append(c)
+    ctx.check(not lens, "C07.D2.no-length-tests", "parser:own-length-test", "the TopicName parsers apply no length test of their own besides the regexes (%s)" %
+              ([c.name() + "@" + c.span.rsplit("/", 1)[-1] for c in lens[:3]] or "none"), (lens or [tf])[0].span)
     # truth table of is_valid
     def classify(it, st, call):
         n = strip_generics(call.callee)
@@ -178,6 +188,9 @@ def d3(ctx, F, top):
               F.body(TN + "::create"), F.body(TN + "::is_valid"),
               F.one_body(r"^<selium_protocol::topic_name::TopicName as core::fmt::Display>::fmt$")]
     bodies += F.closures_of(bodies[0])
+    # private helpers of the parsers (e.g. an `is_reserved()` predicate) belong to them
+    reg = F.region(bodies)
+    bodies = bodies + [b for p_, b in sorted(reg.items()) if b not in bodies and b.crate == "selium_protocol" and "topic_name" in p_]
     ngroups = 2 if top is None else 0
     if top is not None:
         ngroups = sum(1 for n in top.inner() if n[0] == literals.SUBPATTERN)
@@ -241,6 +254,10 @@ def d4(ctx, F):
     sends = [c for c in hs.calls() if c.bb in excl and strip_generics(c.callee) == "futures_util::sink::SinkExt::send"]
     ctx.check(frames == ["Error"] and len(sends) == 1, "C07.D4.refusal", "handle_stream:invalid-topic-not-refused",
               "the invalid-name edge sends exactly one frame, a Frame::Error (found frames %s, %d send)" % (frames, len(sends)), iv.span)
+    # building and sending the refusal must not panic either (a panic in the per-stream task is swallowed by the runtime: the peer
+    # would get end-of-stream instead of the error frame)
+    from .. import panics as _pn
+    _pn.analyse(ctx, [hs], "C07.D4.refusal-no-panic", skip=lambda site: site.bb not in excl, include_alloc=False)
     # error codes pairwise distinct
     codes = {p: c["value"].get("int") for p, c in F.consts.items() if p.startswith("selium_protocol::error_codes::") and "value" in c}
     ctx.floor("C07.D4.error-codes", len(codes), 7)
@@ -263,6 +280,21 @@ def d5(ctx, F):
     ops = [c for c in hs.calls() if strip_generics(c.callee) in ("std::collections::hash::map::HashMap::contains_key", "std::collections::hash::map::HashMap::insert",
                                                                "std::collections::hash::map::HashMap::get_mut", "std::collections::hash::map::HashMap::get") and "TopicName" in c.full]
     ctx.floor("C07.D5.map-key.ops", len(ops), 2) if ops else None
+    # "look the topic up, create it if absent" is atomic: the existence test and the insert use the same acquisition of the registry
+    # lock. With two acquisitions, two first registrations of one name each create a router and the second insert orphans the first
+    # router together with the peers already attached to it.
+    locks = [a for a in flow.awaits(hs) if a.source is not None and strip_generics(a.source.callee) == "tokio::sync::mutex::Mutex::lock"]
+    def acquisition(c):
+        hit = [a for a in locks if op_local(c.args[0]) in flow.derived(hs, {a.poll.dest["l"]}, calls="adapters")]
+        return hit[0].poll.bb if len(hit) == 1 else None
+    tests_ = [c for c in hs.calls() if strip_generics(c.callee) in ("std::collections::hash::map::HashMap::contains_key", "std::collections::hash::map::HashMap::get",
+                                                                   "std::collections::hash::map::HashMap::entry") and "topic::Sender" in c.full]
+    ins_ = [c for c in hs.calls() if strip_generics(c.callee) == "std::collections::hash::map::HashMap::insert" and "topic::Sender" in c.full]
+    acq_t = {acquisition(c) for c in tests_}
+    acq_i = {acquisition(c) for c in ins_}
+    ctx.check(bool(ins_) and None not in acq_i and acq_i <= acq_t and len(acq_i) == 1, "C07.D5.lookup-insert-atomic", "handle_stream:check-then-insert",
+              "the topic's existence test and its insertion happen under one acquisition of the registry lock (tests under %s, inserts under %s)" % (sorted(x for x in acq_t if x is not None), sorted(x for x in acq_i if x is not None)),
+              (ins_ or [hs])[0].span)
     # the registry that maps names to routers is keyed by the whole TopicName (derived Eq/Hash over namespace and topic), not by a
     # digest or a rendering of it: every HashMap whose values are topic channels (topic::Sender) must have K = TopicName
     allmaps = [c for c in hs.calls() if strip_generics(c.callee).startswith("std::collections::hash::map::HashMap::") and "topic::Sender" in c.full]
